@@ -173,7 +173,23 @@ def partsJson (P : Problem) (S : Solution) : Json :=
 
 def implCodes (j : Json) : R (List String) := listOf asStr j
 
+/-- tours with transit stops (required break on the road): outside the checker model; where the real checker accepts the
+    solver's own document it must reject every document whose transit arrival was moved inside the break -/
+def handleTransit (j : Json) : R (List (String × Json)) := do
+  let impl ← fld j "impl"
+  match impl.getObjVal? "base" with
+  | .error _ => return [("model", impl), ("oracle", Json.mkObj []), ("info", Json.mkObj [("skipped", Json.bool true)])]
+  | .ok b =>
+    let base ← listOf asStr b
+    let muts ← listF (listOf asStr) impl "muts"
+    let rejectsAll := muts.all (fun m => !m.isEmpty)
+    return [("model", impl),
+            ("oracle", Json.mkObj [("rejects_breach:transit_arrival_shift", Json.bool (!base.isEmpty || rejectsAll))]),
+            ("info", Json.mkObj [("transit", Json.bool true), ("base_accepted", Json.bool base.isEmpty), ("mutants", jNat muts.length),
+                                 ("base_codes", Json.arr (base.map Json.str).toArray)])]
+
 def handle (j : Json) : R (List (String × Json)) := do
+  if (fldD j "k" Json.null) == Json.str "transit" then return (← handleTransit j)
   let spJ ← fld j "sp"
   let solJ ← fld j "sol"
   let P ← parseProblem spJ
